@@ -9,6 +9,7 @@ from sigpyproc import fourierseries
 from sigpyproc.core import kernels, stats
 from sigpyproc.foldedcube import FoldedData
 from sigpyproc.header import Header
+from sigpyproc.io.fileio import FileWriter
 from sigpyproc.utils import validate_path
 
 if TYPE_CHECKING:
@@ -397,7 +398,8 @@ class TimeSeries:
             basename = self.header.basename
         self.header.make_inf(outfile=f"{basename}.inf")
         out_filename = f"{basename}.dat"
-        with self.header.prep_outfile(out_filename, nbits=32) as outfile:
+        # PRESTO .dat files are raw float32 samples: no SIGPROC header
+        with FileWriter(out_filename, mode="w", nbits=32) as outfile:
             outfile.cwrite(self.data)
         return out_filename
 
